@@ -49,6 +49,7 @@ def gen_cases(rng, tier):
         cases.append({"kind": "S", "cls": rng.choice(["MS", "DC"]), "N": rng.choice([1, 2, 3, 4]), "M": rng.choice([1, 2]),
                       "order": rng.choice([1, 2, 3]), "param": rng.random() < 0.3, "form": rng.randrange(8),
                       "order2": rng.choice([1, 2, 3]), "decl": rng.choice(["wv", "vw"]), "refine": rng.choice([2, 3, 4]),
+                      "late": rng.random() < 0.4,
                       "a": ocpgen.rnd(rng, -1, 1), "b": ocpgen.rnd(rng, 0.3, 2), "c": ocpgen.rnd(rng, -1.5, 1.5),
                       "grid": ocpgen.gen_grid(rng, ["uniform", "geometric", "function"], 3),
                       "t0": ocpgen.rnd(rng, -1, 1), "T": ocpgen.rnd(rng, 0.5, 3), "seed": rng.getrandbits(32)})
@@ -85,7 +86,7 @@ def run_S(case):
     two = case["form"] >= 4
     res = {"sig": "S|%s|N%dM%d|o%d%s|%s|f%d|%s|%s" % (case["cls"], case["N"], case["M"], case["order"],
                                                       case.get("order2", "") if two else "", "p" if case["param"] else "v",
-                                                      case["form"], case.get("decl", "wv"), C.grid_tag(case["grid"])),
+                                                      case["form"], case.get("decl", "wv") + ("-late" if case.get("late") else ""), C.grid_tag(case["grid"])),
            "evals": 0, "violations": [], "counters": {"points": 0, "refined_der_points": 0}}
     rng = np.random.default_rng(case["seed"])
     a, b, c = case["a"], case["b"], case["c"]
@@ -110,16 +111,22 @@ def run_S(case):
         f = a * x + u + b * w
         ocp.set_der(x, f)
         e = s_expr(case["form"], x, w, v if two else 0, ocp.t, c, ca)
-        de = C.call("der(e)", ocp.der, e)
-        # derivatives of the signals are requested after der(e) mentioned them in its own order
-        dv = C.call("der(v)", ocp.der, v) if two else None
-        dw = C.call("der(w)", ocp.der, w)
-        ocp.add_objective(ocp.sum(u ** 2 + ca.sumsqr(w) + ca.sumsqr(de) + (ca.sumsqr(v) if two else 0)) + ocp.at_tf(x) ** 2)
+        late = bool(case.get("late"))
         if case["cls"] == "MS":
             ocp.method(rockit.MultipleShooting(N=N, M=M, intg="rk", grid=build.make_grid(case["grid"])))
         else:
             ocp.method(rockit.DirectCollocation(N=N, M=M, degree=3, grid=build.make_grid(case["grid"])))
         ocp.solver("ipopt", {"ipopt.print_level": 0, "print_time": False})
+        ocp.add_objective(ocp.sum(u ** 2 + ca.sumsqr(w) + (ca.sumsqr(v) if two else 0)) + ocp.at_tf(x) ** 2)
+        if late:
+            # the derivatives are requested for the first time after the OCP has been transcribed once
+            C.call("transcribe(first)", lambda: ocp._transcribed)
+            res["counters"]["der_after_first_transcription"] = 1
+        de = C.call("der(e)", ocp.der, e)
+        # derivatives of the signals are requested after der(e) mentioned them in its own order
+        dv = C.call("der(v)", ocp.der, v) if two else None
+        dw = C.call("der(w)", ocp.der, w)
+        ocp.add_objective(ocp.sum(ca.sumsqr(de)))
         view = C.call("transcribe", nlp.NlpView, ocp)
         qs = [x, u, w, dw, ocp.t, de] + ([v, dv] if two else [])
         outs = [C.call("sample", ocp.sample, q, grid="control")[1] for q in qs]
